@@ -82,7 +82,7 @@ def run_scenario(arg):
             root = os.path.join(work, "in")
             gentree.materialise_dir(tree, root)
             tarf = os.path.join(work, "in.tar")
-            subprocess.run(["/usr/bin/tar", "--sort=name", "--numeric-owner", "--xattrs", "-cf", tarf, "-C", root, "."], check=True)
+            subprocess.run(["/usr/bin/tar", "--sort=name", "--numeric-owner", "--xattrs", "-cf", tarf, "-C", root, "."], check=True, stderr=subprocess.DEVNULL)
             tardata = open(tarf, "rb").read()
             img = os.path.join(work, "ref.sqfs")
             base = ["-c", comp, "-b", str(bs), "-q", "-f"]
